@@ -7,7 +7,7 @@ THEOREM_MODULE = "SimVerif.Props.C07"
 NONTRIVIAL_FLAGS = {"multi-step", "long", "stationary", "rotated", "beyond-gate", "between-2dof-and-5dof-gates", "multi-point", "inverted"}
 RULE = ("`kf box|point|vec traj`: measurement sequences of 1..300 steps (moving, accelerating, jittering, shrinking/growing, rotated boxes, stationary objects; coordinates 1..1e4; position/velocity weights over the documented range); "
         "after every initiate/predict/update the executor reports the raw mean and covariance (hook H2) and the distance; each step is compared with the exact rational model step taken from the implementation's own previous state "
-        "(tolerance 2e-4 relative), the covariance is checked to be SPD with zero off-pattern entries, stationary trajectories to stay put, the vector filter to equal one point filter per point bit for bit; "
+        "(tolerance 2e-4 relative), the covariance is checked to be SPD with zero off-pattern entries, stationary trajectories to stay put, the vector filter to equal one point filter per point bit for bit, also when a point joins the state vector later (elements with different histories); "
         "`kf cost box|point|vec d inverted` over d around both gates; non-trivial = multi-step / long / stationary / rotated trajectories, distances beyond or between the gates, inverted cost; distinct = distinct request line")
 TRUSTED_BASE = ["Lean 4.33 kernel", "axioms: propext, Quot.sound, Classical.choice (at most)",
                 "model SimVerif/Model/Kalman.lean (one constant-velocity filter per coordinate; noise constants and gate indices regenerated from the Rust source by translator/translate.py into Gen/Consts.lean) tied to src/utils/kalman/*.rs by one-step differential comparison on raw states (hook H2)",
@@ -55,6 +55,9 @@ def pt_traj(rng, n, npts=None):
         rows.append(" ".join("%s %s" % (f32tok(p[0]), f32tok(p[1])) for p in pts))
         if not still:
             pts = [(p[0] + p[2] + rng.uniform(-.3, .3), p[1] + p[3] + rng.uniform(-.3, .3), p[2], p[3]) for p in pts]
+    if npts and npts >= 2 and n >= 3 and rng.random() < 0.4:
+        # the last point joins the state vector later: elements with different histories
+        return "kf vec trajl %s %s %d %d %d %s" % (f32tok(wp), f32tok(wv), k, n, rng.randint(1, n - 2), " ".join(rows))
     if npts:
         return "kf vec traj %s %s %d %d %s" % (f32tok(wp), f32tok(wv), k, n, " ".join(rows))
     return "kf point traj %s %s %d %s" % (f32tok(wp), f32tok(wv), n, " ".join(rows))
